@@ -93,6 +93,13 @@ impl GenericTokenBucket {
     }
 }
 
+/// Verification hook: the bucket parameters, readable from outside this module.
+#[cfg(feature = "verif-hooks")]
+impl GenericTokenBucket {
+    pub const VERIF_MAX_TOKENS: u32 = Self::MAX_TOKENS;
+    pub const VERIF_TOKENS_PER_SECOND: u32 = Self::TOKENS_PER_SECOND;
+}
+
 impl Default for GenericTokenBucket {
     fn default() -> Self {
         Self::new()
